@@ -68,8 +68,14 @@ fn work(shard: &Shard, journal: &Journal, rep: &mut Report) {
 pub const VALS_FULL: &[&str] = &[
 	"null", "true", "0", "-0", "1", "-1", "0.5", "-0.5", "2", "3", "255", "256", "2147483648", "-2147483648", "9007199254740992", "1e308", "5e-324", "\"\"", "\"a\"", "\"é😀\"", "\"%\"", "[]", "[0]", "[\"a\"]", "{}", "{a:1}",
 	"function(x) x",
+	// cyclic values (bound by the prefix below)
+	"cyca",
+	"cycb",
+	"cyco",
 ];
-pub const VALS_SMALL: &[&str] = &["null", "0", "1", "-1", "0.5", "2", "\"a\"", "\"é😀\"", "[0]", "{a:1}", "function(x) x"];
+pub const VALS_SMALL: &[&str] = &["null", "0", "1", "-1", "0.5", "2", "\"a\"", "\"é😀\"", "[0]", "{a:1}", "function(x) x", "cyca", "cyco"];
+/// every std call is evaluated under these bindings: a cyclic array and a cyclic object
+pub const STD_PREFIX: &str = "local cyca = [cyca], cycb = [cycb], cyco = { x: cyco }; ";
 
 pub struct StdFn {
 	pub name: String,
@@ -163,20 +169,20 @@ fn part_std(shard: &Shard, journal: &Journal, rep: &mut Report) {
 		for k in required..=total.min(4) {
 			let vals: &[&str] = if k >= 4 || (k == 3 && maxk == 3 && required > 3) { VALS_SMALL } else { VALS_FULL };
 			if k == 0 {
-				run(rep, f, format!("std.{}()", f.name));
+				run(rep, f, format!("{STD_PREFIX}std.{}()", f.name));
 				continue;
 			}
 			let dims = vec![vals.len(); k];
 			for_each_product(&dims, |_, c| {
 				let args: Vec<&str> = c.iter().map(|i| vals[*i]).collect();
-				run(rep, f, format!("std.{}({})", f.name, args.join(", ")));
+				run(rep, f, format!("{STD_PREFIX}std.{}({})", f.name, args.join(", ")));
 			});
 			// all-named style (reversed order) on the small alphabet
 			if k <= 2 && f.params.iter().take(k).all(|p| p.0.is_some()) {
 				let dims = vec![VALS_SMALL.len(); k];
 				for_each_product(&dims, |_, c| {
 					let args: Vec<String> = c.iter().enumerate().rev().map(|(pi, i)| format!("{}={}", f.params[pi].0.as_ref().unwrap(), VALS_SMALL[*i])).collect();
-					run(rep, f, format!("std.{}({})", f.name, args.join(", ")));
+					run(rep, f, format!("{STD_PREFIX}std.{}({})", f.name, args.join(", ")));
 				});
 			}
 		}
